@@ -24,6 +24,8 @@ Part B  summarised counts
   `counts_eq`, `aggregate_table`, `aggregate_once`   every hash is credited to its LCA and to each
                              of its ancestors exactly once (the root only when it is the LCA itself)
 Part C  the database, over all histories of insert / downsample_scaled / JSON save+load
+  `index_identifier_sides_identical`, `index_identifier_sides_agree`, `version_cuts_agree_iff_at_most_one_period`
+                             the two identifier normalisations of `lca index` (spreadsheet / signature side)
   `index_command_builds_reachable`   the database `sourmash lca index` writes is reached by a history of inserts
   `history_invariant`        the tables represent the log of accepted insertions (also after a JSON
                              round trip followed by further insertions)
@@ -55,6 +57,7 @@ import SmVerif.Lemmas.LcaSql
 import SmVerif.Lemmas.LineageRollup
 import SmVerif.Model.LcaIndex
 import SmVerif.Model.LcaCli
+import SmVerif.Lemmas.LcaIdent
 
 namespace Sm.C18
 
@@ -421,6 +424,40 @@ theorem run_append (db : Db) (log : List Entry) (a b : List Op) :
   | nil => rfl
   | cons op ops ih => simp only [List.cons_append, run]; exact ih _ _
 
+/-! ### `lca index --split-identifiers`: the two identifier normalisations
+
+   The spreadsheet identifiers (`load_taxonomy_assignments`) and the signature names (`index`) are normalised by
+   two separate statements of the source; the translator reads the version cut of each site on its own
+   (`Gen.idxTaxVersionCut`, `Gen.idxSigVersionCut`) and the model has one function per site (`taxIdent`, `sigIdent`). -/
+
+/-- the two sites apply the same version cut … (stops building when one site is edited alone) -/
+theorem index_identifier_sides_identical : Gen.idxTaxVersionCut = Gen.idxSigVersionCut := by decide
+
+/-- … hence a spreadsheet identifier and a signature name that are the same string before normalisation are
+    the same string after it, whatever the options: the lineage of the spreadsheet row reaches the signature -/
+theorem index_identifier_sides_agree (splitIdents keepVersions : Bool) (s : String) :
+    LcaIndex.taxIdent splitIdents keepVersions s = LcaIndex.sigIdent splitIdents keepVersions s := by
+  unfold LcaIndex.taxIdent LcaIndex.sigIdent
+  rw [index_identifier_sides_identical]
+
+/-- when would two DIFFERENT cuts agree?  `split(".")[0]` and `rsplit(".", 1)[0]` agree on a word without a
+    period and on a word with exactly one, and differ on every word with two or more (`A.B.1`: `A` vs `A.B`) —
+    the ordinary `accession.version` identifiers cannot tell them apart -/
+theorem version_cuts_agree_iff_at_most_one_period (c : Char) :
+    (∀ l : List Char, c ∉ l → headUntil c l = LcaIndex.beforeLast c l) ∧
+    (∀ a b : List Char, c ∉ a → c ∉ b → headUntil c (a ++ c :: b) = LcaIndex.beforeLast c (a ++ c :: b)) ∧
+    (∀ a b d : List Char, c ∉ a → c ∉ d →
+      headUntil c (a ++ c :: (b ++ c :: d)) ≠ LcaIndex.beforeLast c (a ++ c :: (b ++ c :: d))) :=
+  ⟨fun _ h => LcaIndex.cuts_agree_no_period h, LcaIndex.cuts_agree_one_period,
+   fun a b d ha hd => (LcaIndex.cuts_differ_two_periods a b d ha hd).2.2⟩
+
+/-- kernel-checked instance: `MGYG.000123.1 genome` under `--split-identifiers` -/
+theorem version_cuts_example :
+    LcaIndex.normIdent .dotPrefix true false "MGYG.000123.1 genome" = "MGYG" ∧
+    LcaIndex.normIdent .dropLast true false "MGYG.000123.1 genome" = "MGYG.000123" ∧
+    LcaIndex.normIdent .dotPrefix true true "MGYG.000123.1 genome" = "MGYG.000123.1" ∧
+    LcaIndex.normIdent .dotPrefix false false "MGYG.000123.1 genome" = "MGYG.000123.1 genome" := by decide
+
 /-- `sourmash lca index` (Model/LcaIndex.lean: spreadsheet reader, identifier options, duplicate md5s,
     --require-taxonomy, refusals): whatever the options and the spreadsheet, the database it builds is reached
     by a history of `insert` calls from the empty database — so every theorem of this part (`index_is_relation`,
@@ -460,14 +497,14 @@ theorem index_command_builds_reachable (o : LcaIndex.Opts) (sigs : List Sig) (ro
                   · cases hs
                   · rename_i db' n hins
                     simp only [Except.ok.injEq] at hs; subst hs
-                    refine ⟨[Op.insert sg (LcaIndex.splitIdent o.splitIdents o.keepVersions
+                    refine ⟨[Op.insert sg (LcaIndex.sigIdent o.splitIdents o.keepVersions
                       (if sg.name ≠ "" then sg.name else sg.filename)) []], ?_⟩
                     simp only [run, stepDb, hins]
               · split at hs
                 · cases hs
                 · rename_i lineage _ _ db' n hins
                   simp only [Except.ok.injEq] at hs; subst hs
-                  refine ⟨[Op.insert sg (LcaIndex.splitIdent o.splitIdents o.keepVersions
+                  refine ⟨[Op.insert sg (LcaIndex.sigIdent o.splitIdents o.keepVersions
                     (if sg.name ≠ "" then sg.name else sg.filename)) lineage], ?_⟩
                   simp only [run, stepDb, hins]
         obtain ⟨ops1, h1⟩ := hstep
